@@ -414,11 +414,11 @@ func (d Decision) String() string { return [...]string{"deny", "allow", "undecid
 type Reason int
 
 const (
-	ByPolicyRule    Reason = iota // first matching allow/deny rule of an enforced policy
-	ByEndOfTier                   // tier with an enforced policy, nothing matched, default action not Pass
-	ByProfileRule                 // first matching allow/deny rule of a profile
-	ByNoProfileMatch              // fell off the end: "anything not allowed is denied"
-	ByUnspecified                 // see Decision Undecided
+	ByPolicyRule     Reason = iota // first matching allow/deny rule of an enforced policy
+	ByEndOfTier                    // tier with an enforced policy, nothing matched, default action not Pass
+	ByProfileRule                  // first matching allow/deny rule of a profile
+	ByNoProfileMatch               // fell off the end: "anything not allowed is denied"
+	ByUnspecified                  // see Decision Undecided
 )
 
 func (r Reason) String() string {
